@@ -262,6 +262,11 @@ func (ex *Exec) sprintf(fr *frame, format value, args []value) value {
 	if !ok {
 		return "<symbolic format>"
 	}
+	if hasSymArg(args) {
+		if r, ok := ex.symSprintf(fr, f, args); ok {
+			return r
+		}
+	}
 	nat := make([]interface{}, len(args))
 	for i, a := range args {
 		nat[i] = ex.nativeArg(fr, a)
